@@ -161,7 +161,7 @@ template <class G> int runOne(const std::string &prop, Family fam, bool directed
     if (!out.empty() && !rep.write(out)) { fprintf(stderr, "cannot write %s\n", out.c_str()); return 2; }
     printf("%s %s: states=%lld transitions=%lld violations=%llu exhaustive=%d wall=%.1fs\n", prop.c_str(), cfg.name.c_str(), rep.counters["states"], rep.counters["transitions"],
            rep.violations(), (int)rep.exhaustive, clock_().elapsed());
-    return 0;
+    return args.has("exitcode") && rep.violations() ? 1 : 0;
 }
 
 int main(int argc, char **argv) {
